@@ -47,16 +47,20 @@ def run(ctx):
         print("[note] built from a tree whose stcp / syncx/pipe/q sources differ from HEAD: %s" % dirty,
               flush=True)
     ctx.extra["sources_differing_from_head_at_build"] = dirty
-    steps_f, free_f = ctx.path("steps.ndjson"), ctx.path("free.ndjson")
+    steps_f, free_f, race_f = ctx.path("steps.ndjson"), ctx.path("free.ndjson"), ctx.path("race.ndjson")
     ctx.harness(binary, ["-plans", pdir, "-out", steps_f, "-free", free_f, "-seed", ctx.seed,
                          "-rand", ctx.q(60, 1500), "-nfree", ctx.q(40, 500), "-nbulk", ctx.q(4, 24),
+                         "-race", race_f, "-nrace", ctx.q(12000, 150000),
                          "-empty=%s" % ("true" if EMPTY_SENDS else "false")],
-                traces=[steps_f, free_f])
+                traces=[steps_f, race_f, free_f])
     steps = ctx.load_traces(steps_f)
     free = ctx.load_traces(free_f)
+    race = ctx.load_traces(race_f)
     rj = ctx.validate(fam, "Session_Trace", "Session_Trace.cfg", steps, label="scripted", chunk=12000)
     rj += ctx.validate(fam, "Session_Trace", "Session_Trace.cfg", free, label="loopback", chunk=6000)
+    rj += ctx.validate(fam, "Session_Trace", "Session_Trace.cfg", race, label="race rounds", chunk=20000)
     ctx.judge(rj)
+    ctx.extra["race_round_sessions"] = sum(t[0].get("n", 0) for t in race)
     ctx.extra["plans"] = len(plans)
     ctx.extra["scripted_traces"] = len(steps)
     ctx.extra["loopback_traces"] = len(free)
@@ -91,7 +95,12 @@ def run(ctx):
              "(300 ms .. 8 s) - 6..8 MB in 128 KB blocks through Server -> Do, Close at once, client reads "
              "64 KB per ms to the end of the stream and reports the intact blocks in order, the end kind and "
              "the tail; life-cycle orders on NewSession objects: Send / Close before Start, Close without "
-             "Start, Close racing Start from two goroutines; a trace is one SessionMgr lifetime.  Audit additions: handlers "
+             "Start, Close racing Start from two goroutines; a trace is one SessionMgr lifetime.  Race rounds: 12,000 (thorough "
+             "150,000) tiny sessions in batches of 128, each with its reader parked in Read and its writer parked "
+             "in Write, ended by ONE event that fails both calls at once (reset / peer close / both deadlines; one "
+             "channel both wait on, in half of them a spin barrier before they return), no driver step between the "
+             "two exits; per session OnExit calls and closed, per batch count before / while alive / after and "
+             "goroutines left, in one compact event.  Audit additions: handlers "
              "that call Send / Close from inside Read and from inside OnExit (recorded by the handler, call + "
              "record serialized with the driver's), temporary-but-not-timeout errors, all sessions of a fresh "
              "manager started at the same moment, option extremes (timeouts negative / 0 / 1 ms / 2^30 ms on "
